@@ -102,6 +102,10 @@ func serialize(hdr *store.TxHeader, entries []entryInfo) ([]byte, *store.TxHeade
 
 func clone(b []byte) []byte { return append([]byte{}, b...) }
 
+// the fields that hold a length or a count
+var lengthClass = map[string]bool{"hdr.MdLen": true, "hdr.Md.extraLen": true, "hdr.NEntries": true,
+	"entry.mdLen": true, "entry.kLen": true, "entry.vLen": true}
+
 var boundary = []byte{0, 1, 2, 0x7f, 0x80, 0xfe, 0xff}
 
 func beBytes(v uint64, w int) []byte {
@@ -163,7 +167,19 @@ func plan(cfgIdx int, img *image, rng *rand.Rand, budget int) []*job {
 				add(ti, f.class, "field-random", txp(t, f.lo, d))
 			}
 			// numeric fields: arithmetic edits
-			if w <= 8 && f.class != "entry.key" && f.class != "entry.md" && f.class != "hdr.Md" {
+			// every length / count field: exactly +-1 and +-2 (off-by-one and off-by-prefix slips)
+			if lengthClass[f.class] {
+				v := beVal(orig)
+				max := uint64(1)<<(8*uint(w)) - 1
+				for _, d := range []int64{1, 2, -1, -2} {
+					nv := uint64(int64(v)+d) & max
+					if int64(v)+d < 0 {
+						continue
+					}
+					add(ti, f.class, fmt.Sprintf("len%+d", d), txp(t, f.lo, beBytes(nv, w)))
+				}
+			}
+			if w <= 8 && f.class != "entry.key" && f.class != "hdr.Md.extra" && f.class != "hdr.Md.code" && f.class != "entry.md.code" {
 				v := beVal(orig)
 				max := uint64(1)<<(8*uint(w)) - 1
 				if w == 8 {
@@ -339,6 +355,10 @@ func plan(cfgIdx int, img *image, rng *rand.Rand, budget int) []*job {
 			switch k {
 			case "entry.vLen", "entry.vOff", "entry.vOff+vLen", "rewrite":
 				k += "/" + j.kind
+			case "hdr.MdLen", "hdr.Md.extraLen", "hdr.NEntries", "entry.mdLen", "entry.kLen":
+				if strings.HasPrefix(j.kind, "len") {
+					k += "/" + j.kind
+				}
 			case "value.bytes":
 				k += "/" + strings.SplitN(j.kind, "-", 2)[0]
 			}
@@ -366,7 +386,7 @@ func plan(cfgIdx int, img *image, rng *rand.Rand, budget int) []*job {
 		// index rebuild from the corrupted logs: always when the key, its length or the key metadata
 		// may be affected, for a half / a quarter of the other jobs
 		switch classFamily(j.class) {
-		case "entry.key", "entry.kLen", "entry.md", "entry.mdLen", "rewrite", "relocate":
+		case "entry.key", "entry.kLen", "entry.md.code", "entry.md.expiresAt", "entry.mdLen", "rewrite", "relocate":
 			j.rebuild = true
 		case "multi", "scribble", "zeroed":
 			j.rebuild = i%2 == 0
